@@ -1163,8 +1163,8 @@ Proof.
     by (apply (rename_triple_typing f tau (t :: g)); [exact Ht | left; reflexivity]).
   pose proof (typing_iri_tail tau t g Ht) as Ht'.
   rewrite (cap_allows_rename f tau cap st t Hfix), (relevant_rename f tau m t Hfix).
-  destruct (cap_allows tau cap st t) as [[|]|]; [|apply IH; exact Ht' | reflexivity].
   destruct (relevant tau m t) eqn:R; [|apply IH; exact Ht'].
+  destruct (cap_allows tau cap st t) as [[|]|]; [|apply IH; exact Ht' | reflexivity].
   assert (rename_triple f t = t) as ->.
   { apply Hfix. unfold relevant in R. apply andb_true_iff in R. tauto. }
   destruct (to t); [|reflexivity].
